@@ -3,7 +3,7 @@
    every relationship the properties quantify over (regular, replaceable with
    a timestamp tie, parameterised replaceable with d-values that are prefixes
    of one another and an absent d tag, deletion of own / foreign / unknown
-   ids, ephemeral, expiring, forged). *)
+   ids, ephemeral, expiring, forged, malformed-but-authentic). *)
 EXTENDS Integers, Sequences, FiniteSets, TLC
 CONSTANT Backend
 VARIABLES store, wq, bcast, last
@@ -22,10 +22,17 @@ UniverseDef ==
     d1 |-> E("A", 5, 25, << <<"e", "n1">>, <<"e", "nb">>, <<"e", "p3">>, <<"e", "zz">> >>, TRUE, <<>>),
     x1 |-> E("A", 20000, 10, <<>>, TRUE, <<>>),
     ex |-> E("B", 1, 10, << <<"expiration", "t15">> >>, TRUE, <<"n", 15>>),
-    fg |-> E("A", 1, 10, <<>>, FALSE, <<>>) ]
+    fg |-> E("A", 1, 10, <<>>, FALSE, <<>>),
+    \* a deletion with a reference that is not an id: may be refused (without a trace) or applied
+    dq |-> [pk |-> "A", kind |-> 5, ts |-> 26, tags |-> << <<"e", "r1">>, <<"e", "junk">> >>, auth |-> TRUE, exp |-> <<>>, dub |-> TRUE] ]
 
 INSTANCE Store WITH Universe <- UniverseDef, OneCharNames <- {"d", "e", "t"},
                     PolicyRefused <- {}, GcTimes <- {15, 16}
+
+\* bulk loads of a few dumps (out-of-order versions, a forgery, a deletion, a malformed deletion) on top of everything else
+LoadSeqs == { <<"r2", "r1", "fg", "d1">>, <<"p1", "p3", "p0", "dq", "n1">>, <<"n1", "nb", "d1", "n1", "x1", "ex">> }
+NextL == Next \/ \E sq \in LoadSeqs : Load(sq)
+SpecL == Init /\ [][NextL]_vars
 
 Depth == 6
 Bound == TLCGet("level") <= Depth /\ Len(wq) <= 3
